@@ -100,6 +100,20 @@ func VerifHarness_CoinRegistry_Deliver() {
 		verifAssert("C22:old-coin-reachable-by-symbol-and-version", archived != nil && archived.ID() == oldID)
 		o := owner()
 		verifAssert("C22:ticker-owner-unchanged-by-recreation", o != nil && *o == sender)
+		// the same ticker recreated a second time (seed C22-k): version numbers
+		// keep counting, every archived coin stays reachable under its own version
+		n1 := u.st.Accounts.GetNonce(sender)
+		tx2 := &Transaction{Nonce: n1 + 1, ChainID: tx.ChainID, GasPrice: tx.GasPrice, GasCoin: tx.GasCoin, Type: tx.Type, Data: tx.Data, SignatureType: SigTypeSingle}
+		r2 := u.deliver(verifSignBy(tx2, signer))
+		verifNote("second", uint64(r2.Code))
+		if r2.Code == 0 {
+			newID2 := newID + 1
+			verifAssert("C22:second-recreation-gets-the-next-id", u.st.App.GetCoinsCount() == count0+2 && u.st.Coins.Exists(newID2))
+			first, second := u.st.Coins.GetCoin(oldID), u.st.Coins.GetCoin(newID)
+			verifAssert("C22:second-recreation-archives-under-version-2", first != nil && first.Version() == 1 && second != nil && second.Version() == 2)
+			a1, a2, a0 := u.st.Coins.GetCoinBySymbol(sym, 1), u.st.Coins.GetCoinBySymbol(sym, 2), u.st.Coins.GetCoinBySymbol(sym, 0)
+			verifAssert("C22:every-version-resolves-to-its-own-coin", a1 != nil && a1.ID() == oldID && a2 != nil && a2.ID() == newID && a0 != nil && a0.ID() == newID2)
+		}
 	case 4:
 		verifAssert("C22:owner-change-only-by-the-ticker-owner", existed && signer == 1 && verifConfig("ticker") != 3)
 		o := owner()
